@@ -126,6 +126,7 @@ pub fn run(tier: Tier) {
     part.outcome(format!("distinct salts overall {}", seen.len()));
     ctx.add_part(part);
 
+    crate::e5::run_part(&mut ctx, "sign");
     // no constant byte position
     let constant: Vec<usize> = (0..40).filter(|&i| byte_values[i].len() < 2).collect();
     if !constant.is_empty() {
@@ -161,5 +162,8 @@ pub fn child_salts() {
 }
 
 pub fn replay(_case: &Value) -> Result<Option<String>, String> {
+    if _case.get("kind").and_then(|k| k.as_str()) == Some("e5") {
+        return crate::e5::replay(_case);
+    }
     Err("C08 histories depend on the production RNG; re-run ./vf check C08 (a real defect fails on every run)".into())
 }
